@@ -21,6 +21,7 @@ import (
 	"verif/mc/corpus"
 	"verif/mc/lib/ev"
 	"verif/mc/lib/gcore"
+	"verif/mc/lib/refwire"
 )
 
 type sizer interface{ Size() int }
@@ -509,6 +510,193 @@ func hasVarLen(m protoreflect.Message) bool {
 	return found
 }
 
+// ---- C08: totality on arbitrary bytes; no silent disagreement
+
+// mechanism attributes a both-accept disagreement to an already triaged decoding mechanism by looking
+// at the wire shape of b (recursively): a map entry that is not exactly key-then-value, a singular
+// message field occurring more than once, a file-scope or repeated extension. "" = none of them.
+func mechanism(md protoreflect.MessageDescriptor, b []byte, t *gcore.Type) string {
+	fs, err := refwire.Parse(b)
+	if err != nil {
+		return ""
+	}
+	seen := map[int]int{}
+	for _, f := range fs {
+		fd := md.Fields().ByNumber(protoreflect.FieldNumber(f.Num))
+		if fd == nil {
+			if md.ExtensionRanges().Has(protoreflect.FieldNumber(f.Num)) && (t.File == "p2extfile" || t.File == "p2extrep") {
+				return "unsupported-extension-shape"
+			}
+			continue
+		}
+		seen[f.Num]++
+		if f.WT != refwire.Len {
+			continue
+		}
+		payload := b[f.DataFrom:f.End]
+		switch {
+		case fd.IsMap():
+			es, err := refwire.Parse(payload)
+			if err != nil {
+				continue
+			}
+			if len(es) != 2 || es[0].Num != 1 || es[1].Num != 2 {
+				return "map-entry-shape"
+			}
+			if vd := fd.MapValue(); vd.Message() != nil && es[1].WT == refwire.Len {
+				if m := mechanism(vd.Message(), payload[es[1].DataFrom:es[1].End], t); m != "" {
+					return m
+				}
+			}
+		case fd.Message() != nil:
+			if !fd.IsList() && seen[f.Num] > 1 {
+				return "message-merge"
+			}
+			if m := mechanism(fd.Message(), payload, t); m != "" {
+				return m
+			}
+		}
+	}
+	return ""
+}
+
+func (w *W) c08One(t *gcore.Type, id string, b []byte, measure bool) {
+	w.evals++
+	if w.sh.Trace {
+		w.sh.Cur("C08/"+t.String(), fmt.Sprintf("%s/%s/%x", t, id, b))
+	}
+	x := t.New()
+	var err error
+	in := append([]byte{}, b...)
+	var ms0, ms1 runtime.MemStats
+	if measure {
+		runtime.ReadMemStats(&ms0)
+	}
+	p := guard(func() { err = x.(unmarshaler).Unmarshal(in) })
+	if measure {
+		runtime.ReadMemStats(&ms1)
+		if d := ms1.TotalAlloc - ms0.TotalAlloc; d > uint64(64*len(b)+64<<10) {
+			w.sh.Fail(fmt.Sprintf("C08/allocation-out-of-proportion/%s/%s.%s", t.RT, t.File, t.Name), t.String()+"/"+id, map[string]any{"bytes": hexs(b), "alloc": d, "len": len(b)})
+		}
+	}
+	if p != "" {
+		w.sh.Fail(fmt.Sprintf("C08/Unmarshal-panic/%s/%s.%s", t.RT, t.File, t.Name), t.String()+"/"+id, map[string]any{"bytes": hexs(b), "msg": p})
+		return
+	}
+	if err != nil {
+		return
+	}
+	ref, rerr := refDecode(t, b)
+	if rerr != nil {
+		return // the generated code may be more lenient than the reference; only agreement of ACCEPTED inputs is required
+	}
+	tree, terr := gcore.TreeOf(t, x)
+	if terr != nil {
+		w.sh.Fail(fmt.Sprintf("C08/decoded-struct-unreadable/%s/%s.%s", t.RT, t.File, t.Name), t.String()+"/"+id, map[string]any{"bytes": hexs(b), "msg": terr.Error()})
+		return
+	}
+	w.nontr++
+	if df := gcore.Diff(ref, tree); df != "" {
+		mech := mechanism(t.RefDesc(), b, t)
+		sig := fmt.Sprintf("C08/silent-disagreement/%s/%s.%s", t.RT, t.File, t.Name)
+		if mech != "" {
+			sig = fmt.Sprintf("C08/silent-disagreement/%s/%s", t.RT, mech)
+		}
+		w.sh.Fail(sig, t.String()+"/"+id, map[string]any{"bytes": hexs(b), "msg": df, "mechanism": mech})
+	}
+}
+
+var replacements = []func(b byte) byte{
+	func(byte) byte { return 0x00 }, func(byte) byte { return 0x01 }, func(byte) byte { return 0x7F }, func(byte) byte { return 0x80 }, func(byte) byte { return 0xFF },
+	func(b byte) byte { return b ^ 0x01 }, func(b byte) byte { return b ^ 0x80 }, func(b byte) byte { return b + 1 }, func(b byte) byte { return b - 1 },
+	func(byte) byte { return 0x0A }, func(byte) byte { return 0x0D },
+}
+
+func (w *W) checkC08(t *gcore.Type, id string, c *dynamicpb.Message) {
+	seed := canonical(c)
+	if len(seed) == 0 {
+		return
+	}
+	// truncation at every offset
+	for n := 0; n < len(seed); n++ {
+		if len(seed) > 300 && n%7 != 0 && n < len(seed)-16 {
+			continue
+		}
+		w.c08One(t, fmt.Sprintf("%s/trunc@%d", id, n), seed[:n], false)
+	}
+	// byte replacement at every offset
+	if len(seed) <= 96 {
+		mut := make([]byte, len(seed))
+		for off := range seed {
+			for ri, rf := range replacements {
+				copy(mut, seed)
+				mut[off] = rf(seed[off])
+				if mut[off] == seed[off] {
+					continue
+				}
+				w.c08One(t, fmt.Sprintf("%s/byte@%d:r%d", id, off, ri), mut, false)
+			}
+		}
+	}
+	// length-prefix inflation (top level and one level down)
+	var inflate func(prefix []byte, body []byte, suffix []byte, depth int)
+	inflate = func(prefix, body, suffix []byte, depth int) {
+		fs, err := refwire.Parse(body)
+		if err != nil {
+			return
+		}
+		for fi, f := range fs {
+			if f.WT != refwire.Len {
+				continue
+			}
+			l := uint64(f.End - f.DataFrom)
+			for li, nl := range []uint64{l + 1, l * 2, 0x7F, 1 << 14, 1<<31 - 1, 1 << 31, 1 << 32, 1 << 63, ^uint64(0)} {
+				var mut []byte
+				mut = append(mut, prefix...)
+				mut = append(mut, body[:f.ValStart]...)
+				mut = refwire.AppendVarint(mut, nl)
+				mut = append(mut, body[f.DataFrom:]...)
+				mut = append(mut, suffix...)
+				w.c08One(t, fmt.Sprintf("%s/len@%d.%d:l%d", id, depth, fi, li), mut, true)
+			}
+			if depth == 0 {
+				var pre []byte
+				pre = append(pre, prefix...)
+				pre = append(pre, body[:f.DataFrom]...)
+				inflate(pre, body[f.DataFrom:f.End], append(append([]byte{}, body[f.End:]...), suffix...), 1)
+			}
+		}
+	}
+	if len(seed) <= 200 {
+		inflate(nil, seed, nil, 0)
+	}
+}
+
+var sigma16 = []byte{0x00, 0x01, 0x02, 0x04, 0x05, 0x08, 0x09, 0x0A, 0x0B, 0x0D, 0x12, 0x7F, 0x80, 0x81, 0xFE, 0xFF}
+
+// c08Short: every byte string of length <= L over the wire alphabet against type t.
+func (w *W) c08Short(t *gcore.Type, L int, mine func() bool) {
+	buf := make([]byte, 8)
+	for l := 0; l <= L; l++ {
+		tot := 1
+		for i := 0; i < l; i++ {
+			tot *= len(sigma16)
+		}
+		for x := 0; x < tot; x++ {
+			if !mine() {
+				continue
+			}
+			b := buf[:l]
+			y := x
+			for i := 0; i < l; i++ {
+				b[i] = sigma16[y%len(sigma16)]
+				y /= len(sigma16)
+			}
+			w.c08One(t, fmt.Sprintf("short:%x", b), b, false)
+		}
+	}
+}
+
 // ---- C17: required fields in both directions
 
 // requiredCases enumerates, for a type, trees with every subset (bounded) of required fields unset,
@@ -764,6 +952,9 @@ func worker(sh *ev.Shard, prop string) {
 			continue
 		}
 		cs := cases(t, sh.Thorough())
+		if prop == "C08" { // mutation families multiply every seed by ~10^3: seeds are the singles/specials/extension trees of both tiers
+			cs = cases(t, false)
+		}
 		if prop == "C17" {
 			cs = requiredCases(t)
 		}
@@ -796,11 +987,20 @@ func worker(sh *ev.Shard, prop string) {
 				w.checkC07(t, c.ID, c.Msg)
 			case "C10":
 				w.checkC10(t, c.ID, c.Msg)
+			case "C08":
+				w.checkC08(t, c.ID, c.Msg)
 			}
 			if w.sample < 2 && task%97 == 0 {
 				w.sample++
 				sh.Sample(map[string]any{"type": t.String(), "case": c.ID, "tree": gcore.Describe(c.Msg)})
 			}
+		}
+		if prop == "C08" {
+			L := 3
+			if sh.Thorough() {
+				L = 4
+			}
+			w.c08Short(t, L, func() bool { task++; return task%sh.N == sh.Index })
 		}
 	}
 	sh.Count("evals", w.evals)
